@@ -4,6 +4,7 @@ C08 helper lemmas: listing the same disciplines in another order.
 `σ i` of `ds`; `τ` is the inverse renumbering.
 -/
 import GemseoVerif.Lemmas.C08Scc
+import Mathlib.Data.List.Forall2
 
 namespace GV.C08
 
@@ -73,5 +74,173 @@ theorem mutual_eq (h : Relisting ds ds' σ τ) {i j : Nat} (hi : i < ds.length)
   · rintro ⟨_, _, h1, h2⟩; exact ⟨hi, hj, h1, h2⟩
 
 end Relisting
+
+/-! ### The stages do not depend on the numbering of the nodes -/
+
+/-- Two numberings of the same graph: node `i` of the primed graph is node `σ i` of the other. -/
+structure Renumber (adj mu adj' mu' : Nat → Nat → Bool) (n : Nat) (σ τ : Nat → Nat) : Prop where
+  h : IsMutual adj mu n
+  h' : IsMutual adj' mu' n
+  σ_lt : ∀ i, i < n → σ i < n
+  τ_lt : ∀ k, k < n → τ k < n
+  τσ : ∀ i, i < n → τ (σ i) = i
+  στ : ∀ k, k < n → σ (τ k) = k
+  adj_eq : ∀ i j, i < n → j < n → adj' i j = adj (σ i) (σ j)
+  mu_eq : ∀ i j, i < n → j < n → mu' i j = mu (σ i) (σ j)
+
+/-- The representative (first member) of the component of `i`. -/
+noncomputable def repOf {adj mu : Nat → Nat → Bool} {n : Nat} (h : IsMutual adj mu n) (i : Nat) :
+    Nat :=
+  if hi : i < n then Classical.choose (exists_rep h hi) else i
+
+theorem repOf_spec {adj mu : Nat → Nat → Bool} {n : Nat} (h : IsMutual adj mu n) {i : Nat}
+    (hi : i < n) : repOf h i ∈ reps mu n ∧ mu (repOf h i) i = true := by
+  unfold repOf
+  rw [dif_pos hi]
+  exact Classical.choose_spec (exists_rep h hi)
+
+namespace Renumber
+
+variable {adj mu adj' mu' : Nat → Nat → Bool} {n : Nat} {σ τ : Nat → Nat}
+
+/-- A component of the primed graph, named by its representative, as a component of the other. -/
+noncomputable def f (R : Renumber adj mu adj' mu' n σ τ) (a' : Nat) : Nat := repOf R.h (σ a')
+
+theorem f_spec (R : Renumber adj mu adj' mu' n σ τ) {a' : Nat} (ha : a' < n) :
+    R.f a' ∈ reps mu n ∧ mu (R.f a') (σ a') = true :=
+  repOf_spec R.h (R.σ_lt a' ha)
+
+theorem f_inj (R : Renumber adj mu adj' mu' n σ τ) {a' b' : Nat} (ha : a' ∈ reps mu' n)
+    (hb : b' ∈ reps mu' n) (hab : R.f a' = R.f b') : a' = b' := by
+  have han := (mem_reps.1 ha).1
+  have hbn := (mem_reps.1 hb).1
+  have h1 := (R.f_spec han).2
+  have h2 := (R.f_spec hbn).2
+  rw [hab] at h1
+  have h3 : mu (σ a') (σ b') = true := R.h.trans (R.h.symm h1) h2
+  have h4 : mu' a' b' = true := by rw [R.mu_eq a' b' han hbn]; exact h3
+  exact rep_unique R.h' ha hb h4 (R.h'.refl hbn)
+
+theorem map_f_perm (R : Renumber adj mu adj' mu' n σ τ) :
+    ((reps mu' n).map R.f).Perm (reps mu n) := by
+  apply (List.perm_ext_iff_of_nodup ?_ reps_nodup).2
+  · intro a
+    simp only [List.mem_map]
+    constructor
+    · rintro ⟨a', ha', rfl⟩
+      exact (R.f_spec (mem_reps.1 ha').1).1
+    · intro ha
+      have han := (mem_reps.1 ha).1
+      obtain ⟨a', ha', hm⟩ := exists_rep R.h' (R.τ_lt a han)
+      have ha'n := (mem_reps.1 ha').1
+      refine ⟨a', ha', ?_⟩
+      rw [R.mu_eq a' (τ a) ha'n (R.τ_lt a han), R.στ a han] at hm
+      -- both R.f a' and a are the representative of the component of a
+      have hs := R.f_spec ha'n
+      exact rep_unique R.h hs.1 ha (R.h.trans hs.2 hm) (R.h.refl han)
+  · exact List.Nodup.map_on (fun a ha b hb hab => R.f_inj ha hb hab) reps_nodup
+
+theorem cedge_eq (R : Renumber adj mu adj' mu' n σ τ) {a' b' : Nat} (ha : a' ∈ reps mu' n)
+    (hb : b' ∈ reps mu' n) :
+    cedge adj mu n (R.f a') (R.f b') = cedge adj' mu' n a' b' := by
+  have han := (mem_reps.1 ha).1
+  have hbn := (mem_reps.1 hb).1
+  have hfa := (R.f_spec han).2
+  have hfb := (R.f_spec hbn).2
+  rw [Bool.eq_iff_iff, cedge_iff, cedge_iff]
+  constructor
+  · rintro ⟨hne, i, j, hai, hbj, hi, hj, hij⟩
+    refine ⟨fun e => hne (by rw [e]), τ i, τ j, ?_, ?_, R.τ_lt i hi, R.τ_lt j hj, ?_⟩
+    · rw [R.mu_eq a' (τ i) han (R.τ_lt i hi), R.στ i hi]
+      exact R.h.trans (R.h.symm hfa) hai
+    · rw [R.mu_eq b' (τ j) hbn (R.τ_lt j hj), R.στ j hj]
+      exact R.h.trans (R.h.symm hfb) hbj
+    · rw [R.adj_eq (τ i) (τ j) (R.τ_lt i hi) (R.τ_lt j hj), R.στ i hi, R.στ j hj]
+      exact hij
+  · rintro ⟨hne, i, j, hai, hbj, hi, hj, hij⟩
+    refine ⟨fun e => hne (R.f_inj ha hb e), σ i, σ j, ?_, ?_, R.σ_lt i hi, R.σ_lt j hj, ?_⟩
+    · rw [R.mu_eq a' i han hi] at hai
+      exact R.h.trans hfa hai
+    · rw [R.mu_eq b' j hbn hj] at hbj
+      exact R.h.trans hfb hbj
+    · rw [← R.adj_eq i j hi hj]; exact hij
+
+/-- Stage by stage, the components scheduled for the primed graph are (as sets) the components
+    scheduled for the other graph. -/
+theorem stages (R : Renumber adj mu adj' mu' n σ τ) :
+    List.Forall₂ (fun st' st => (st'.map R.f).Perm st) (stagesOf adj' mu' n) (stagesOf adj mu n) := by
+  unfold stagesOf
+  rw [List.forall₂_reverse_iff]
+  have hlen : (reps mu' n).length = (reps mu n).length := by
+    have := R.map_f_perm.length_eq; simpa using this
+  have hmap := peel_map (r := cedge adj' mu' n) R.f (cedge adj mu n) (reps mu' n).length (reps mu' n)
+    (fun a ha b hb hab => R.f_inj ha hb hab) (fun a ha b hb => R.cedge_eq ha hb)
+  have hperm := peel_perm_congr (r := cedge adj mu n) (reps mu' n).length R.map_f_perm
+  rw [hmap, hlen] at hperm
+  rw [hlen]
+  exact List.forall₂_map_left_iff.1 hperm
+
+/-- `i` is scheduled at stage `k`. -/
+def InStage (seq : List (List (List Nat))) (k i : Nat) : Prop :=
+  ∃ g ∈ seq[k]?.getD [], i ∈ g
+
+theorem inStage_sequenceOf {adj mu : Nat → Nat → Bool} {n k i : Nat} :
+    InStage (sequenceOf adj mu n) k i ↔
+      ∃ a ∈ (stagesOf adj mu n)[k]?.getD [], i < n ∧ mu a i = true := by
+  unfold InStage sequenceOf
+  rw [List.getElem?_map]
+  cases (stagesOf adj mu n)[k]? with
+  | none => simp
+  | some st =>
+    simp only [Option.map_some, Option.getD_some, List.mem_map]
+    constructor
+    · rintro ⟨g, ⟨a, ha, rfl⟩, hi⟩; exact ⟨a, ha, mem_comp.1 hi⟩
+    · rintro ⟨a, ha, hi⟩; exact ⟨_, ⟨a, ha, rfl⟩, mem_comp.2 hi⟩
+
+/-- The stage of a node does not depend on the numbering. -/
+theorem inStage_iff (R : Renumber adj mu adj' mu' n σ τ) (k i : Nat) (hi : i < n) :
+    InStage (sequenceOf adj' mu' n) k i ↔ InStage (sequenceOf adj mu n) k (σ i) := by
+  rw [inStage_sequenceOf, inStage_sequenceOf]
+  have hst := R.stages
+  have hlen := hst.length_eq
+  by_cases hk : k < (stagesOf adj' mu' n).length
+  · have hk2 : k < (stagesOf adj mu n).length := hlen ▸ hk
+    have hrel : (((stagesOf adj' mu' n)[k]).map R.f).Perm ((stagesOf adj mu n)[k]) := by
+      have := (List.forall₂_iff_get.1 hst).2 k hk hk2
+      simpa using this
+    rw [List.getElem?_eq_getElem hk, List.getElem?_eq_getElem hk2]
+    simp only [Option.getD_some]
+    have hreps : ∀ a' ∈ (stagesOf adj' mu' n)[k], a' ∈ reps mu' n := fun a' ha' =>
+      stage_mem_reps R.h' (List.getElem_mem hk) ha'
+    constructor
+    · rintro ⟨a', ha', _, hm⟩
+      have ha'n := (mem_reps.1 (hreps a' ha')).1
+      refine ⟨R.f a', hrel.mem_iff.1 (List.mem_map.2 ⟨a', ha', rfl⟩), R.σ_lt i hi, ?_⟩
+      rw [R.mu_eq a' i ha'n hi] at hm
+      exact R.h.trans (R.f_spec ha'n).2 hm
+    · rintro ⟨a, ha, _, hm⟩
+      obtain ⟨a', ha', rfl⟩ := List.mem_map.1 (hrel.mem_iff.2 ha)
+      have ha'n := (mem_reps.1 (hreps a' ha')).1
+      refine ⟨a', ha', hi, ?_⟩
+      rw [R.mu_eq a' i ha'n hi]
+      exact R.h.trans (R.h.symm (R.f_spec ha'n).2) hm
+  · have hk2 : ¬ k < (stagesOf adj mu n).length := hlen ▸ hk
+    rw [List.getElem?_eq_none (by omega), List.getElem?_eq_none (by omega)]
+    simp
+
+end Renumber
+
+/-- Two listings of the same disciplines are two numberings of the same dependency graph. -/
+theorem Relisting.renumber {ds ds' : List Disc} {σ τ : Nat → Nat} (h : Relisting ds ds' σ τ) :
+    Renumber (edge ds) (mutualR (edge ds) ds.length) (edge ds') (mutualR (edge ds') ds'.length)
+      ds.length σ τ where
+  h := isMutual_edge ds
+  h' := h.length_eq ▸ isMutual_edge ds'
+  σ_lt := h.σ_lt
+  τ_lt := h.τ_lt
+  τσ := h.τσ
+  στ := h.στ
+  adj_eq := fun _ _ hi hj => h.edge_eq hi hj
+  mu_eq := fun _ _ hi hj => h.mutual_eq hi hj
 
 end GV.C08
